@@ -407,8 +407,10 @@ class StmtGen(Gen):
         r = self.r
         if nest <= 0 or r.random() < 0.45:
             return self.simple_stmt(d)
-        k = r.choice(["if", "if", "while", "dowhile", "repeat", "forcount", "forcount", "foreach", "foreach", "exit"])
+        k = r.choice(["if", "if", "while", "dowhile", "repeat", "forcount", "forcount", "foreach", "foreach", "exit", "loopctl", "loopctl"])
         self.cells.add(("stmt", k, nest))
+        if k == "loopctl":
+            return self.loopctl()
         if k == "if":
             arms = [(self.expr(W, d), self.block(r.randint(1, 3), d, nest - 1)) for _ in range(r.randint(1, 3))]
             els = self.block(r.randint(1, 2), d, nest - 1) if r.random() < 0.6 else None
@@ -480,6 +482,59 @@ class StmtGen(Gen):
             self.loop_depth -= 1
             return [ForEach(v, ety, self.expr(cty, 1), body, idx)]
         raise ValueError(k)
+
+    def loopctl(self):
+        """an outer loop of any kind whose body holds an inner loop of any kind, then an EXECUTED continue / break of the outer loop,
+        then an observation: every visitor of a loop saves and restores the enclosing loop's continue and leave targets"""
+        r = self.r
+        okind = r.choice(["forcount", "while", "dowhile", "repeat", "foreach"])
+        ikind = r.choice(["forcount", "while", "dowhile", "repeat", "foreach", "foreach_text"])
+        ctl = r.choice(["continue", "continue", "break", "both"])
+        self.cells.add(("loopctl", okind, ikind, ctl))
+        pre, n = [], 4
+        if okind in ("forcount", "foreach"):
+            cn = self.fresh("i")
+        else:
+            cn = self.fresh("c")
+            pre.append(Decl(cn, Z, Lit(Z, 0)))
+        cnt = Var(cn, Z)
+        # inner loop: prints a mark per round
+        mark = [Print(Lit(T, r.choice([".", "+", "ä"])), False)]
+        if ikind == "forcount":
+            inner = [ForCount(self.fresh("j"), Z, Lit(Z, 1), Lit(Z, r.randint(0, 2)), None, mark)]
+        elif ikind in ("while", "dowhile"):
+            jn = self.fresh("c")
+            body = [Compound("erhoehe", Var(jn, Z), Lit(Z, 1))] + mark
+            cond = Bin("kleiner", Var(jn, Z), Lit(Z, r.randint(0, 2)), W)
+            inner = [Decl(jn, Z, Lit(Z, 0)), While(cond, body) if ikind == "while" else DoWhile(cond, body)]
+        elif ikind == "repeat":
+            inner = [Repeat(Lit(Z, r.randint(0, 2)), mark)]
+        elif ikind == "foreach":
+            ety = r.choice([Z, T, K])
+            inner = [ForEach(self.fresh("e"), ety, self.lit(L(ety)), mark, None)]
+        else:
+            inner = [ForEach(self.fresh("e"), C, Lit(T, r.choice(["ab", "äb", "", "x"])), mark, None)]
+        odd = Bin("gleich", Bin("modulo", cnt, Lit(Z, 2), Z), Lit(Z, 1), W)
+        stop = Bin("gleich", cnt, Lit(Z, 3), W)
+        control = []
+        if ctl in ("continue", "both"):
+            control.append(If([(odd, [Continue()])]))
+        if ctl in ("break", "both"):
+            control.append(If([(stop if ctl == "break" else Bin("gleich", cnt, Lit(Z, 4), W), [Break()])]))
+        tail = [Print(Lit(T, "#%d:" % (self.obs + 1)), False), Print(cnt, True)]
+        self.obs += 1
+        body = inner + control + tail
+        if okind == "forcount":
+            loop = ForCount(cn, Z, Lit(Z, 1), Lit(Z, n), None, body)
+        elif okind == "foreach":
+            loop = ForEach(cn, Z, ListLit(L(Z), [Lit(Z, x) for x in range(1, n + 1)]), body, None)
+        elif okind == "repeat":
+            loop = Repeat(Lit(Z, n), [Compound("erhoehe", cnt, Lit(Z, 1))] + body)
+        else:
+            cond = Bin("kleiner", cnt, Lit(Z, n), W)
+            body = [Compound("erhoehe", cnt, Lit(Z, 1))] + body
+            loop = While(cond, body) if okind == "while" else DoWhile(cond, body)
+        return [If([(Lit(W, True), pre + [loop, Print(Lit(T, "ende"), True)])])]
 
     def ret_stmt(self, d):
         if self.cur_ret == NICHTS:
